@@ -32,7 +32,8 @@ def impl_view(case, impl):
 
 
 PATTERNS = [b"a", b"b$", b"^a", b"a+b", b"[0-9]+", b"x|y", b"\\s", b"^$", b".", b".*", b"", b"(?i)ERROR", b"o$",
-            b"\\d{2,}", b"[[:alpha:]]+", b"^.{3}$", b"a.c", b"[^a]", b"\\.", b" ", b"foo bar", b"a,b;c:d", b"\\bw\\b", b"\xc3\xa9"]
+            b"\\d{2,}", b"[[:alpha:]]+", b"^.{3}$", b"a.c", b"[^a]", b"\\.", b" ", b"foo bar", b"a,b;c:d", b"\\bw\\b", b"\xc3\xa9",
+            b"^ab", b"^foo", b"^error", b"^a,b;c:d", b"(?i)^error 42"]
 WORDS = [b"a", b"b", b"ab", b"error", b"ERROR 42", b"foo", b"foo bar", b"x", b"", b" ", b"a,b;c:d", b"abc", b"12", b"w", b"caf\xc3\xa9", b"o"]
 
 
